@@ -152,3 +152,101 @@ def nfc_like_pool():
     return ["é", "é", "Å", "Å", "ｆｕｌｌ", "ﬁ", "①", "ẛ̣", "á̖", "á̖",
             "́abc", "한국어", "한", "が", "が", "ㇰ", " ", "　", "ǆ", "ﷺ", "㌖㌖",
             "̈́", "ཱི", "q̣̇", "q̣̇", "½", "²", "Ω", "Ω", "ñ", "ñ", "ß", "ſ"]
+
+
+# ---------------------------------------------------------------- sentences for the validator
+import unicodedata
+
+ALT_SEPS = [" ".encode(), "　".encode()]
+
+
+def valid_entropies(rng, el, quick):
+    out = [bytes(el), b"\xff" * el]
+    for z in range(1, 9):
+        out.append(bytes(z) + rng.randbytes(el - z))
+    for _ in range(2 if quick else 8):
+        b = rng.randrange(el * 8)
+        out.append((1 << b).to_bytes(el, "big"))
+    for _ in range(3 if quick else 30):
+        out.append(rng.randbytes(el))
+    return out
+
+
+def sentence_with_word(rng, lang, n, pos, widx):
+    """a valid n-word sentence (indices) holding word widx at position pos"""
+    cs = n // 3
+    while True:
+        pre = [rng.randrange(2048) for _ in range(n - 1)]
+        if pos < n - 1:
+            pre[pos] = widx
+            ent = entropy_from_prefix(pre, n, rng.randrange(1 << (11 - cs)))
+            return indices_of_entropy(ent)
+        ent = entropy_from_prefix(pre, n, widx >> cs)
+        idx = indices_of_entropy(ent)
+        if idx[-1] == widx:
+            return idx
+
+
+def fullwidth(b):
+    s = b.decode()
+    return "".join(chr(ord(c) - 0x20 + 0xFF00) if 0x21 <= ord(c) <= 0x7E else c for c in s).encode()
+
+
+def spellings(word):
+    """other spellings of a list word (generation only; equality of NFKD forms is decided by the Coq NFKD)"""
+    s = word.decode()
+    out = {}
+    for form in ("NFC", "NFD", "NFKC", "NFKD"):
+        v = unicodedata.normalize(form, s).encode()
+        if v != word:
+            out[form] = v
+    fw = fullwidth(word)
+    if fw != word:
+        out["fullwidth"] = fw
+    return out
+
+
+def damaged(rng, lang, idx):
+    """ill-formed variants of a valid sentence: (tag, bytes)"""
+    t = table(lang)
+    n = len(idx)
+    sp = b" "
+    ws = [t[i] for i in idx]
+    out = []
+    # word-count changes
+    for k in (0, 1, 3, 6, 9, 11, n - 1, n + 1, n - 3 if n > 12 else 10, 25, 27, 30):
+        if k == n:
+            continue
+        if k <= n:
+            out.append(("count%d" % k, sp.join(ws[:k])))
+        else:
+            out.append(("count%d" % k, sp.join(ws + [t[rng.randrange(2048)] for _ in range(k - n)])))
+    # transpositions
+    for _ in range(3):
+        a, b = rng.sample(range(n), 2)
+        w2 = list(ws)
+        w2[a], w2[b] = w2[b], w2[a]
+        out.append(("transpose", sp.join(w2)))
+    # words of other lists / unknown tokens at a position
+    for _ in range(4):
+        other = rng.choice([l for l in LANGS if l != lang])
+        p = rng.randrange(n)
+        w2 = list(ws)
+        w2[p] = table(other)[rng.randrange(2048)]
+        out.append(("otherlist", sp.join(w2)))
+    for junk in (b"zzzzzz", b"", b"Abandon", ws[0].upper(), ws[0] + b"s", b"\xff\xfe", b"\xe3\x81", "𝔘".encode(), b"a\x00b"):
+        p = rng.randrange(n)
+        w2 = list(ws)
+        w2[p] = junk
+        out.append(("junk", sp.join(w2)))
+    # whitespace damage
+    joined = sp.join(ws)
+    out += [("ws-tab", b"\t".join(ws)), ("ws-double", b"  ".join(ws)), ("ws-lead", b" " + joined), ("ws-trail", joined + b" "),
+            ("ws-newline", joined + b"\n"), ("ws-crlf", b"\r\n".join(ws))]
+    # arbitrary bytes
+    out.append(("bytes", rng.randbytes(rng.randrange(1, 200))))
+    out.append(("bytes", b" ".join(rng.randbytes(rng.randrange(1, 6)) for _ in range(n))))
+    return out
+
+
+EQUIV_SEPS = [" ", " ", " ", " ", "　", " "]   # all map to U+0020 under NFKD
